@@ -121,3 +121,9 @@ Theorem C17_pr_once_deliver_partial : forall s q' p m pr o s' e,
   outcome_of p (hd (ESent 0 0) e) = Some o.
 Proof. exact pr_once_deliver_partial. Qed.
 Print Assumptions C17_pr_once_deliver_partial.
+
+(* observer.OneShotObserverList: every subscriber, past or future, is (eventually) sent one and the same result *)
+Theorem C17_oso_single_result : forall ops w1 r1 w2 r2,
+  In (OEventually w1 r1) (snd (oso_run oso0 ops)) -> In (OEventually w2 r2) (snd (oso_run oso0 ops)) -> r1 = r2.
+Proof. exact oso_single_result. Qed.
+Print Assumptions C17_oso_single_result.
